@@ -256,7 +256,7 @@ pub fn case_module(p: &Program, names: &Names, limit: usize, budget: u64) -> Str
     let mut s = String::new();
     s.push_str("#![allow(unused_imports, unused_variables, unused_mut, non_snake_case)]\n");
     s.push_str("use proto_vulcan::prelude::*;\nuse proto_vulcan::relation::*;\nuse proto_vulcan::operator::*;\n");
-    s.push_str("use pvh::build::cmp::*;\nuse pvh::build::{nat, lenle, downfrom, diverge, memberrev, zeros, nrev};\n\n");
+    s.push_str("use pvh::build::cmp::*;\n#[allow(unused_imports)]\nuse pvh::build::cmp2;\nuse pvh::build::{nat, lenle, downfrom, diverge, memberrev, zeros, nrev, deepnever};\n\n");
     s.push_str("pub fn run() -> pvh::pipeline::CaseOut {\n");
     let _ = writeln!(s, "    pvh::pipeline::run_case({}, {}, || {{", limit, budget);
     for (name, elems) in &e.colls {
